@@ -687,7 +687,7 @@ func (w *c08Worker) observe(pos int, afterSweep bool) {
 	bad := missing != 0 || orphan != 0 || unknownRecs != 0 || doubleRecs != 0 || nrec != bits.OnesCount64(tracked)
 	if bad && !w.structBad {
 		ctx := "alone"
-		pick := missing
+		pick := missing | orphan
 		if pick == 0 {
 			pick = tracked
 		}
